@@ -313,3 +313,50 @@ def read_ndjson(path):
             if ln:
                 evs.append(json.loads(ln))
     return evs
+
+
+# ------------------------------------------------------------------ common driver/validator pattern
+def record(res, pid, jobs, timeout=600):
+    """Run harness jobs [(exe, args)], collect events; an aborted driver is a violation
+    (the real code crashed / sanitizer fired while executing a generated case)."""
+    d = os.path.join(RUN, pid); os.makedirs(d, exist_ok=True)
+    events = []
+    for k, (exe, args) in enumerate(jobs):
+        p = os.path.join(d, "rec%d.ndjson" % k)
+        r = run_harness(exe, args, p, timeout=timeout)
+        evs = read_ndjson(p)
+        if r.returncode != 0:
+            res.violation("driver %s %s aborted (rc=%d) after %d events: %s" % (os.path.basename(exe), args, r.returncode, len(evs),
+                          r.stderr.decode(errors="replace")[-1200:]), {"cmd": [exe] + [str(a) for a in args]})
+        for e in evs:
+            e["id"] = len(events); events.append(e)
+    return events
+
+
+def shorten(e, n=24):
+    def sh(v):
+        if isinstance(v, list):
+            if len(v) > n:
+                return [sh(x) for x in v[:n]] + ["...(%d items)" % len(v)]
+            return [sh(x) for x in v]
+        return v
+    return {k: sh(v) for k, v in e.items()}
+
+
+def design_runs(res, runs, workers=4):
+    """runs: list of (module, cfg, must_hold). Negative controls (must_hold False) must be violated."""
+    def one(r):
+        return tlc(r[0], cfg=r[1], workers=workers, timeout=900)
+    with cf.ThreadPoolExecutor(max(1, min(4, len(runs)))) as ex:
+        outs = list(ex.map(one, runs))
+    for (mod, cfg, must_hold), o in zip(runs, outs):
+        tlc_must_run(o, cfg)
+        if must_hold and not o["ok"]:
+            raise Infra("design model %s does not satisfy its properties:\n%s" % (cfg, o["out"][-2500:]))
+        if not must_hold and not o["violated"]:
+            raise Infra("negative control %s did not fail: the model cannot express the defect" % cfg)
+        if must_hold:
+            res.add("states", o["distinct"]); res.add("transitions", o["states"])
+        res.cov.setdefault("design_runs", []).append({"cfg": cfg, "expected": "holds" if must_hold else "violated (negative control)",
+                                                      "distinct_states": o["distinct"], "states_generated": o["states"]})
+    return outs
